@@ -63,9 +63,11 @@ impl NdarrayValue {
                 // For vector values, we need to handle the extra dimensions
                 if indices.len() == 2 {
                     // Simple case: just set the slice
-                    let mut view = arr.slice_mut(ndarray::s![indices[0], indices[1], ..]);
-                    for (i, val) in v.iter().enumerate() {
-                        view[i] = *val;
+                    // All extra dimensions of this (chain, draw) entry, in row-major order
+                    let mut chain = arr.index_axis_mut(ndarray::Axis(0), indices[0]);
+                    let mut view = chain.index_axis_mut(ndarray::Axis(0), indices[1]);
+                    for (dst, val) in view.iter_mut().zip(v.iter()) {
+                        *dst = *val;
                     }
                 } else {
                     return Err(anyhow::anyhow!(
@@ -75,9 +77,11 @@ impl NdarrayValue {
             }
             (NdarrayValue::F32(arr), Value::F32(v)) => {
                 if indices.len() == 2 {
-                    let mut view = arr.slice_mut(ndarray::s![indices[0], indices[1], ..]);
-                    for (i, val) in v.iter().enumerate() {
-                        view[i] = *val;
+                    // All extra dimensions of this (chain, draw) entry, in row-major order
+                    let mut chain = arr.index_axis_mut(ndarray::Axis(0), indices[0]);
+                    let mut view = chain.index_axis_mut(ndarray::Axis(0), indices[1]);
+                    for (dst, val) in view.iter_mut().zip(v.iter()) {
+                        *dst = *val;
                     }
                 } else {
                     return Err(anyhow::anyhow!(
@@ -87,9 +91,11 @@ impl NdarrayValue {
             }
             (NdarrayValue::Bool(arr), Value::Bool(v)) => {
                 if indices.len() == 2 {
-                    let mut view = arr.slice_mut(ndarray::s![indices[0], indices[1], ..]);
-                    for (i, val) in v.iter().enumerate() {
-                        view[i] = *val;
+                    // All extra dimensions of this (chain, draw) entry, in row-major order
+                    let mut chain = arr.index_axis_mut(ndarray::Axis(0), indices[0]);
+                    let mut view = chain.index_axis_mut(ndarray::Axis(0), indices[1]);
+                    for (dst, val) in view.iter_mut().zip(v.iter()) {
+                        *dst = *val;
                     }
                 } else {
                     return Err(anyhow::anyhow!(
@@ -99,9 +105,11 @@ impl NdarrayValue {
             }
             (NdarrayValue::I64(arr), Value::I64(v)) => {
                 if indices.len() == 2 {
-                    let mut view = arr.slice_mut(ndarray::s![indices[0], indices[1], ..]);
-                    for (i, val) in v.iter().enumerate() {
-                        view[i] = *val;
+                    // All extra dimensions of this (chain, draw) entry, in row-major order
+                    let mut chain = arr.index_axis_mut(ndarray::Axis(0), indices[0]);
+                    let mut view = chain.index_axis_mut(ndarray::Axis(0), indices[1]);
+                    for (dst, val) in view.iter_mut().zip(v.iter()) {
+                        *dst = *val;
                     }
                 } else {
                     return Err(anyhow::anyhow!(
@@ -111,9 +119,11 @@ impl NdarrayValue {
             }
             (NdarrayValue::U64(arr), Value::U64(v)) => {
                 if indices.len() == 2 {
-                    let mut view = arr.slice_mut(ndarray::s![indices[0], indices[1], ..]);
-                    for (i, val) in v.iter().enumerate() {
-                        view[i] = *val;
+                    // All extra dimensions of this (chain, draw) entry, in row-major order
+                    let mut chain = arr.index_axis_mut(ndarray::Axis(0), indices[0]);
+                    let mut view = chain.index_axis_mut(ndarray::Axis(0), indices[1]);
+                    for (dst, val) in view.iter_mut().zip(v.iter()) {
+                        *dst = *val;
                     }
                 } else {
                     return Err(anyhow::anyhow!(
